@@ -14,20 +14,29 @@ Init == bs = <<>>
 Next == Len(bs) < MaxBlocks /\ \E b \in BlockIds : (\A i \in 1..Len(bs) : bs[i] # b) /\ bs' = Append(bs, b)
 Spec == Init /\ [][Next]_bs
 
-RECURSIVE ClosureNode(_, _), ClosureList(_, _, _)
-ClosureNode(T, j) ==
+\* M: the nodes that are made explicit (in addition to those that already are)
+RECURSIVE ClosureNode(_, _, _), ClosureList(_, _, _, _)
+ClosureNode(T, M, j) ==
   LET n == T.nodes[j]  ks == Kids(T, j)
-      tk == [t |-> "D", k |-> n.k, p |-> n.p, a |-> n.a, e |-> (n.e \/ (ks # <<>> /\ n.k \notin NoExplicit)), b |-> n.b, c |-> n.c]
-  IN <<tk>> \o ClosureList(T, ks, 1) \o (IF tk.e THEN <<CloseTok>> ELSE <<>>)
-ClosureList(T, js, i) == IF i > Len(js) THEN <<>> ELSE ClosureNode(T, js[i]) \o ClosureList(T, js, i + 1)
-Closure(toks) == LET T == RunTree(toks) IN IF T.res # "ok" THEN toks ELSE ClosureList(T, Kids(T, 0), 1)
+      tk == [t |-> "D", k |-> n.k, p |-> n.p, a |-> n.a, e |-> (n.e \/ j \in M), b |-> n.b, c |-> n.c]
+  IN <<tk>> \o ClosureList(T, M, ks, 1) \o (IF tk.e THEN <<CloseTok>> ELSE <<>>)
+ClosureList(T, M, js, i) == IF i > Len(js) THEN <<>> ELSE ClosureNode(T, M, js[i]) \o ClosureList(T, M, js, i + 1)
+CanOpen(T) == {j \in 1..Len(T.nodes) : Kids(T, j) # <<>> /\ T.nodes[j].k \notin NoExplicit /\ ~T.nodes[j].e}
+\* the full closure first, then every single directive made explicit on its own (an explicit context next to implicit siblings)
+RECURSIVE Singles(_, _)
+Singles(T, j) == IF j > Len(T.nodes) THEN <<>> ELSE (IF j \in CanOpen(T) THEN <<{j}>> ELSE <<>>) \o Singles(T, j + 1)
+Masks(T) == <<CanOpen(T)>> \o Singles(T, 1)
+Closures(toks) == LET T == RunTree(toks) IN
+                  IF T.res # "ok" THEN <<toks>> ELSE [m \in 1..Len(Masks(T)) |-> ClosureList(T, Masks(T)[m], Kids(T, 0), 1)]
 
 NoE(X) == [j \in 1..Len(X.nodes) |-> [k |-> X.nodes[j].k, p |-> X.nodes[j].p, a |-> X.nodes[j].a, b |-> X.nodes[j].b, c |-> X.nodes[j].c, parent |-> X.nodes[j].parent]]
 Doc == DocOf(bs)
-SameTree == RunTree(Doc).res = "ok" => /\ RunTree(Closure(Doc)).res = "ok"
-                                       /\ NoE(RunTree(Closure(Doc))) = NoE(RunTree(Doc))
-SameCatalog == LET a == Build(Doc)  b == Build(Closure(Doc)) IN a.res = b.res /\ a.cls = b.cls /\ a.skel = b.skel
+SameTree == RunTree(Doc).res = "ok" => \A m \in 1..Len(Closures(Doc)) :
+                                          /\ RunTree(Closures(Doc)[m]).res = "ok"
+                                          /\ NoE(RunTree(Closures(Doc)[m])) = NoE(RunTree(Doc))
+SameCatalog == LET a == Build(Doc) IN \A m \in 1..Len(Closures(Doc)) :
+                 LET b == Build(Closures(Doc)[m]) IN a.res = b.res /\ a.cls = b.cls /\ a.skel = b.skel
 
 ASSUME PrintT("L " \o ToJson(PoolsJson))
-Emit == PrintT("E " \o ToJson([blocks |-> bs', doc |-> DocOf(bs'), closure |-> Closure(DocOf(bs')), x |-> Build(DocOf(bs'))]))
+Emit == PrintT("E " \o ToJson([blocks |-> bs', doc |-> DocOf(bs'), closures |-> Closures(DocOf(bs')), x |-> Build(DocOf(bs'))]))
 =============================================================================
